@@ -43,7 +43,7 @@ extern "C" void vf_main(void) {
     // reference: lexicographic comparison on the value sequences (signed int order, as the element's operator<)
     int ref = 0;
     for (unsigned i = 0; i < (VF_CAPA < VF_CAPB ? VF_CAPA : VF_CAPB); ++i) if (ref == 0 && i < la && i < lb) {
-      if ((int)va_[i] < (int)vb_[i]) ref = -1; else if ((int)vb_[i] < (int)va_[i]) ref = 1;
+      if (vf_order_key<T>(va_[i]) < vf_order_key<T>(vb_[i])) ref = -1; else if (vf_order_key<T>(vb_[i]) < vf_order_key<T>(va_[i])) ref = 1;   // std::vector's operator< uses only the element's operator<
     }
     if (ref == 0) ref = la < lb ? -1 : (la > lb ? 1 : 0);
     bool eq = la == lb;
